@@ -141,6 +141,13 @@ impl Reporter {
 		self.distinct.lock().unwrap().extend(l.distinct);
 	}
 
+	/// Count executions of an exploration: `n` evaluations of which `distinct` had distinct observable outcomes.
+	pub fn add_evals(&self, n: u64, distinct: u64, class: &str) {
+		self.evals.fetch_add(n, Ordering::Relaxed);
+		self.unique.fetch_add(distinct, Ordering::Relaxed);
+		*self.classes.lock().unwrap().entry(class.to_string()).or_insert(0) += n;
+	}
+
 	pub fn set_rule(&self, r: &str) {
 		let mut g = self.rule.lock().unwrap();
 		if !g.is_empty() {
